@@ -418,7 +418,10 @@ def parse_model(line):
 def extra_coverage(cases, impl, model):
     tied = sum(1 for m in model if m not in (None, "-"))
     depth = collections.Counter(c.meta.get("depth", 0) for c in cases if c.cmd == "ser")
+    typed = sum(1 for m in model if m and m.endswith(" typed=1"))
+    untyped = sum(1 for m in model if m and m.endswith(" typed=0"))
     return {"route_outcomes": dict(STATS), "model_tied_cases": tied, "model_not_modelled": sum(1 for m in model if m == "-"),
+            "model_cases_inside_has_type": typed, "model_cases_outside_has_type": untyped,
             "type_depth_histogram": dict(depth), "fidelity_families": N_FIDELITY - 1}
 
 
